@@ -5,6 +5,7 @@ package main
 import (
 	"bytes"
 	"strconv"
+	"strings"
 	"time"
 
 	"github.com/fluhus/biostuff/formats/bed"
@@ -221,6 +222,12 @@ func totalInputs(fmtName string, salt int64, nNoise int) [][]byte {
 		for i := 0; i < 12+nNoise/10; i++ {
 			f := func() string { return floats[r.Intn(len(floats))] }
 			out = append(out, []byte("(a:"+f()+",'b c':"+f()+",(d:"+f()+")e)'it''s':"+f()+";\n"))
+		}
+		// nesting far deeper than any writer-side buffer is likely to be sized for, with branching on every level
+		for _, d := range []int{70, 300, 1100} {
+			out = append(out, []byte(strings.Repeat("(", d)+"a"+strings.Repeat(",l:1)n", d)+";\n"),
+				[]byte(strings.Repeat("(l,", d)+"a"+strings.Repeat(")n:2", d)+";\n"),
+				[]byte(strings.Repeat("(l,(", d)+"a"+strings.Repeat(")n,r)m", d)+";\n"))
 		}
 	case "sam", "samh":
 		for i := 0; i < 12+nNoise/10; i++ {
